@@ -49,6 +49,9 @@ type Scenario struct {
 	ReqBodyDelayNS int64 `json:"req_body_delay_ns,omitempty"`
 	ReqWindow      int   `json:"req_window,omitempty"` // mem: bytes buffered client→server (0: unbounded)
 	RespWindow     int   `json:"resp_window,omitempty"`
+	// LingerRequest (mem): the transport keeps swallowing request bytes after
+	// the response is complete instead of closing the request body.
+	LingerRequest bool `json:"linger_request,omitempty"`
 }
 
 // Trace is what happened.
@@ -193,7 +196,7 @@ func Run(tt *testing.T, s Scenario) (*Trace, error) {
 			pn = memnet.NewPipeNet(h, s.Transport == "h2c")
 			hc = pn.Client
 		default:
-			mem = &memnet.Mem{Handler: h, ReqWindow: s.ReqWindow, RespWindow: s.RespWindow}
+			mem = &memnet.Mem{Handler: h, ReqWindow: s.ReqWindow, RespWindow: s.RespWindow, LingerRequest: s.LingerRequest}
 			hc = mem
 		}
 		cc := &countingClient{inner: hc, reqBodyDelay: time.Duration(s.ReqBodyDelayNS)}
